@@ -275,3 +275,17 @@ func mergeText(in []*Child) []*Child {
 	}
 	return out
 }
+
+var tamePieces = []string{"a", "b", "Z", "0", "9", "x y", "'", "ü", "é", "€", "日本", "-", "_", ".", ":", "/", "@", "=", ";", ",", "~", "+", "%41", "#", "?", "(", ")", "!", "*", "\u00A0"}
+
+// TameString draws strings that need no escaping in XML text or attribute values (quotes excepted: only the apostrophe occurs).
+func TameString(max int) *rapid.Generator[string] {
+	return rapid.Custom(func(t *rapid.T) string {
+		n := rapid.IntRange(0, max).Draw(t, "pieces")
+		s := ""
+		for i := 0; i < n; i++ {
+			s += rapid.SampledFrom(tamePieces).Draw(t, "piece")
+		}
+		return s
+	})
+}
